@@ -564,6 +564,33 @@ func runC01(in sx.SX) (sx.SX, string) {
 				}
 			}
 		}
+		// default variables: a handle taken from DefaultVariables() stays the calculator's collection through Clear() and
+		// SetExpression(); values assigned through it (in place and by SetValue) are the values Evaluate() computes with
+		{
+			dc := calculator.NewExpressionCalculator()
+			handle := dc.DefaultVariables()
+			dc.SetExpression("zz1 + 1")
+			dc.Clear()
+			if err := dc.SetExpression(text); err == nil {
+				var desc []string
+				for _, n := range []string{"a", "b", "c", "x1", "_y", "q id", "Z", "é1"} {
+					v := vals[rnd.Intn(len(vals))]
+					desc = append(desc, n+"="+show(v))
+					if dv := handle.FindByName(n); dv != nil {
+						if rnd.Intn(2) == 0 {
+							dv.SetValue(v)
+						} else {
+							dv.Value().Assign(v)
+						}
+					}
+				}
+				got, gerr := dc.Evaluate()
+				want, werr := realEval(tree, dc.VariantOperations(), handle, dc.DefaultFunctions()) // (the handle also holds the automatic variables)
+				if ok, why := sameResult(got, gerr, want, werr); !ok {
+					fail = fmt.Sprintf("Evaluate() with default variables assigned through a DefaultVariables() handle taken before Clear(), %s: %s", strings.Join(desc, ", "), why)
+				}
+			}
+		}
 		// ONE calculator object through all rounds: an evaluation that fails at run time must not disturb the next one
 		shared := calculator.NewExpressionCalculator()
 		if err := shared.SetExpression(text); err != nil {
